@@ -151,6 +151,31 @@ def exec_grammar(engine_extras: bool = False, opt_extras: bool = False) -> Gramm
             A("scalar_sum_corr", 1, "SELECT a, b FROM x WHERE b = (SELECT SUM(c) FROM y WHERE y.b = x.b)"),
             A("group_having_expr", 1, "SELECT a, SUM(b) AS s FROM x GROUP BY a HAVING SUM(b) > 1 OR a IS NULL"),
             A("distinct_join", 1, "SELECT DISTINCT x.a FROM x {jk} y ON x.b = y.b"),
+            # the outer query uses a SUBSET of the inner query's columns (projection pushdown / merging must keep
+            # DISTINCT / set-operation / GROUP BY / window / LIMIT semantics of the inner query)
+            A("subset.union", 1, "SELECT s.a FROM (SELECT a, b FROM x UNION SELECT b, c FROM y) AS s"),
+            A("subset.union_all", 1, "SELECT s.a FROM (SELECT a, b FROM x UNION ALL SELECT b, c FROM y) AS s"),
+            A("subset.intersect", 1, "SELECT s.a FROM (SELECT a, b FROM x INTERSECT SELECT b, c FROM y) AS s"),
+            A("subset.except", 1, "SELECT s.a FROM (SELECT a, b FROM x EXCEPT SELECT b, c FROM y) AS s"),
+            A("subset.distinct", 1, "SELECT s.a FROM (SELECT DISTINCT a, b FROM x) AS s"),
+            A("subset.group", 1, "SELECT s.n FROM (SELECT a, COUNT(*) AS n FROM x GROUP BY a) AS s"),
+            A("subset.group_key", 1, "SELECT s.a FROM (SELECT a, b, COUNT(*) AS n FROM x GROUP BY a, b) AS s"),
+            A("subset.window", 1, "SELECT s.a FROM (SELECT a, ROW_NUMBER() OVER (ORDER BY a, b) AS rn FROM x) AS s WHERE s.a = 1"),
+            A("subset.limit", 1, "SELECT s.b FROM (SELECT a, b FROM x ORDER BY 1, 2 LIMIT 1) AS s"),
+            A("subset.count_star", 1, "SELECT COUNT(*) AS n FROM (SELECT a, b FROM x) AS s"),
+            A("subset.count_star_distinct", 1, "SELECT COUNT(*) AS n FROM (SELECT DISTINCT a, b FROM x) AS s"),
+            A("subset.count_star_union", 1, "SELECT COUNT(*) AS n FROM (SELECT a FROM x UNION SELECT c FROM y) AS s"),
+            A("subset.const", 1, "SELECT 1 AS one FROM (SELECT a, b FROM x WHERE {sc}) AS s"),
+            A("subset.cte_cross", 1, "WITH t AS (SELECT a, b FROM x) SELECT t1.a FROM t AS t1 CROSS JOIN t AS t2"),
+            A("subset.cte_distinct_twice", 1, "WITH t AS (SELECT DISTINCT a, b FROM x) SELECT t1.a, t2.a AS a2 FROM t AS t1 JOIN t AS t2 ON t1.b = t2.b"),
+            A("subset.nested", 1, "SELECT s2.a FROM (SELECT s.a, s.b FROM (SELECT DISTINCT a, b FROM x) AS s) AS s2"),
+            A("subset.join_right_unused", 1, "SELECT x.a FROM x LEFT JOIN (SELECT b, COUNT(*) AS n FROM y GROUP BY b) AS s ON x.b = s.b"),
+            A("subset.join_inner_unused", 1, "SELECT x.a FROM x JOIN (SELECT DISTINCT b FROM y) AS s ON x.b = s.b"),
+            A("reorder.comma3", 1, "SELECT x.a, y.c FROM x, y, x AS x2 WHERE x.b = x2.a AND y.b = x2.b"),
+            A("reorder.cross_where", 1, "SELECT x.a, y.c FROM x CROSS JOIN y WHERE x.b = y.b AND y.c = 1"),
+            A("reorder.join_chain", 1, "SELECT x.a, y.c, x2.b FROM x JOIN x AS x2 ON TRUE JOIN y ON y.b = x.b AND y.c = x2.a"),
+            A("having.alias", 1, "SELECT a, SUM(b) AS s FROM x GROUP BY a HAVING SUM(b) > 1 AND a > 0"),
+            A("order.derived", 1, "SELECT s.a, s.b FROM (SELECT a, b FROM x ORDER BY 2, 1) AS s ORDER BY 1, 2 LIMIT 2"),
             # predicate kind x subquery body: every uncorrelated body under every subquery predicate
             A("sub.in", 1, "SELECT a, b FROM x WHERE b IN ({sub1})"),
             A("sub.not_in", 1, "SELECT a, b FROM x WHERE b NOT IN ({sub1})"),
